@@ -25,7 +25,7 @@ BOUNDS = {
              "narrower int) as bare array, wrapped in a chunk that declares the plugin's dtype, and wrapped in a chunk "
              "that declares the wrong dtype itself, titled vs untitled dtype (must be accepted), rows "
              "outside the chunk (1-3 time-sorted rows, symbolic times with end times in any order, symbolic bounds), wrong data_type label (foreign / a sibling output's), gap / overlap between target "
-             "chunks (symbolic), non-dict from a multi-output plugin, non-chunk from a down-chunking plugin; both "
+             "chunks (symbolic), non-dict from a multi-output plugin, non-chunk from a down-chunking plugin, declared output omitted by a multi-output down-chunking plugin; both "
              "processors",
     "thorough": "same with 4 chunks",
 }
@@ -128,6 +128,23 @@ def _violating_plugin(pkind, vkind, variant, k, wrap):
                     yield _mk(GOOD, [])
                     return
                 yield payload(self, ksrc, start, end, "vv", bad=bad)
+    elif pkind == "down2":
+        class V(strax.DownChunkingPlugin):
+            """multi-output down-chunking plugin: yields dicts of full chunks"""
+            provides = ("vv", "vw"); depends_on = ("src",)
+            data_kind = immutabledict(vv="kv", vw="kw"); dtype = dict(vv=GOOD, vw=GOOD)
+            rechunk_on_save = False
+
+            def compute(self, ksrc, start, end):
+                bad = bad_here()
+                rows = [(int(ksrc["time"][q]), int(ksrc["endtime"][q]), int(ksrc["id"][q])) for q in range(len(ksrc))]
+                out = {}
+                for d, kind in (("vv", "kv"), ("vw", "kw")):
+                    out[d] = strax.Chunk(start=start, end=end, run_id=RUN, data_kind=kind, data_type=d, dtype=GOOD,
+                                         data=_mk(GOOD, rows))
+                if bad and vkind == "omit":
+                    del out["vw"]  # a declared output is simply not delivered for this chunk
+                yield out
     elif pkind == "loop":
         class V(strax.LoopPlugin):
             provides = ("vv",); depends_on = ("src", "src2"); data_kind = "ksrc"; dtype = GOOD; loop_over = "ksrc"
@@ -212,7 +229,7 @@ def _run_table(pkind, vkind, variant, k, wrap, proc):
     except Exception as e:  # noqa
         exc = e
     # neither the target nor a side output of the violating plugin may be left behind as valid data
-    stored = st.is_stored(RUN, "vv") or (pkind == "multi" and st.is_stored(RUN, "vw"))
+    stored = st.is_stored(RUN, "vv") or (pkind in ("multi", "down2") and st.is_stored(RUN, "vw"))
     return exc, res, stored
 
 
@@ -419,6 +436,7 @@ def _grid(tier):
         g.append(dict(pkind="multi", vkind="nondict", proc=proc))
         g.append(dict(pkind="multi", vkind="sibling_label", proc=proc))
         g.append(dict(pkind="down", vkind="nonchunk", proc=proc))
+        g.append(dict(pkind="down2", vkind="omit", proc=proc))
         g.append(dict(pkind="loop", vkind="nondict", proc=proc))
         g.append(dict(pkind="cut", vkind="length", proc=proc))
     return g
